@@ -107,14 +107,20 @@ package biscuit
 //@ ensures tag_bool[C07]: input is datalog.Bool ==> res.Content is *pb.TermV2_Bool && res.Content.(*pb.TermV2_Bool).Bool == input.(datalog.Bool)
 //@ ensures tag_set[C07]: input is datalog.Set && err == nil ==> res.Content is *pb.TermV2_Set && res.Content.(*pb.TermV2_Set).Set != nil && len(res.Content.(*pb.TermV2_Set).Set.Set) == len(input.(datalog.Set))
 //@ ensures empty_set_refused[C07]: input is datalog.Set && len(input.(datalog.Set)) == 0 ==> err != nil
+//@ loop 0 invariant elems[C07]: forall j int :: { protoSet[j] } 0 <= j && j < #i ==> scalarEnc(datalogSet[j], protoSet[j])
+//@ ensures enc[C07]: err == nil ==> termEnc(input, res)
+//@ ensures set_fresh: err == nil && input is datalog.Set ==> fresh(arr(res.Content.(*pb.TermV2_Set).Set.Set))
 
 //@ func tokenPredicateToProtoPredicateV2(input datalog.Predicate) (res *pb.PredicateV2, err error)
 //@ serves C07 C10 C19
 //@ requires predWF(input)
 //@ modifies nothing
-//@ loop 0 invariant true
+//@ loop 0 invariant len(pbTerms) == len(input.Terms) && fresh(arr(pbTerms))
+//@ loop 0 invariant apart: forall j int :: { pbTerms[j] } 0 <= j && j < #i && input.Terms[j] is datalog.Set ==> arr(pbTerms[j].Content.(*pb.TermV2_Set).Set.Set) != arr(pbTerms)
+//@ loop 0 invariant terms[C07]: forall j int :: { pbTerms[j] } 0 <= j && j < #i ==> termEnc(input.Terms[j], pbTerms[j])
 //@ ensures err == nil ==> res != nil && fresh(res)
 //@ ensures err != nil ==> res == nil
+//@ ensures enc[C07]: err == nil ==> predEnc(input, res)
 
 //@ func tokenFactToProtoFactV2(input datalog.Fact) (res *pb.FactV2, err error)
 //@ serves C07 C10 C19
@@ -122,6 +128,7 @@ package biscuit
 //@ modifies nothing
 //@ ensures err == nil ==> res != nil && fresh(res)
 //@ ensures err != nil ==> res == nil
+//@ ensures enc[C07]: err == nil ==> predEnc(input.Predicate, res.Predicate)
 
 //@ func tokenExprUnaryToProtoExprUnary(op datalog.UnaryOp) (res *pb.OpUnary, err error)
 //@ serves C07 C10 C19
